@@ -200,7 +200,7 @@ class UMNDirHandler(DirHandler):
                     continue
 
             # Type.
-            if line[0:5] == "Type=":
+            if line[0:5] == "Type=" and len(line) > 5:
                 entry.settype(line[5])
                 # FIXME: handle if line[6] is + or ?
                 done["type"] = 1
@@ -227,7 +227,10 @@ class UMNDirHandler(DirHandler):
                 done["host"] = 1
             elif line[0:5] == "Port=":
                 if line[5:] != "+":
-                    entry.setport(int(line[5:]))
+                    try:  # Don't crash if we can't parse the number
+                        entry.setport(int(line[5:]))
+                    except ValueError:
+                        pass
                 done["port"] = 1
             elif line[0:5] == "Numb=":
                 try:  # Don't crash if we can't parse the number
